@@ -57,7 +57,7 @@ impl<R: Req> Endpoint<R> {
             r is Ok ==> final(self).rx_hdrs@ == old(self).rx_hdrs@ + 1 && hdr_valid_spec(r->Ok_0.0)
                 && (r->Ok_0.1 is Some ==> 1 <= r->Ok_0.1->Some_0@.len() <= 32),
     { unimplemented!() }
-    // proved-by: c08_recv_data_bounded
+    // proved-by: c08_recv_data_segmentation_bounded
     #[verifier::external_body]
     pub fn recv_data(&mut self, len: usize) -> (r: Result<(usize, Vec<u8>)>)
         ensures
